@@ -576,6 +576,122 @@ def rule_collect_outermost(ctx):
 
 
 # ------------------------------------------------------------------------------------------
+def _runs_user_code(prog):
+    """local functions that can (through direct calls) run user code: deferred functions (Deferred::call), closures given
+    by the user (a call through a generic parameter), and everything that reaches those"""
+    if hasattr(prog, "_user_code_fns"):
+        return prog._user_code_fns
+    from .rules_rec import call_graph
+    g = {k: set(v) for k, v in call_graph(prog).items()}
+    # dropping a value runs the Drop impls of every local type it contains (Guard -> unpin, Collector -> .. -> Bag)
+    drops = {}
+    for n, b in prog.bodies.items():
+        if b.j.get("impl_trait") == "std::ops::Drop" and n.endswith("::drop"):
+            drops[re.sub(r"<.*$", "", b.j.get("impl_self") or "")] = n
+    contains = {}
+    for a in prog.items["adts"]:
+        contains[a["path"]] = {re.sub(r"[<>,&' ]", " ", f["ty"]) for v in a["variants"] for f in v["fields"]}
+
+    def drop_impls_of(ty, seen=None):
+        seen = seen if seen is not None else set()
+        out = set()
+        for word in re.sub(r"[<>,&'()\[\]; ]", " ", ty).split():
+            if word in seen:
+                continue
+            seen.add(word)
+            if word in drops:
+                out.add(drops[word])
+            for fty in contains.get(word, ()):
+                out |= drop_impls_of(fty, seen)
+        return out
+    for n, b in prog.bodies.items():
+        for bi in b.reachable():
+            tm = b.blocks[bi]["term"]
+            if tm["k"] == "drop":
+                g.setdefault(n, set()).update(drop_impls_of(tm["ty"]))
+            elif tm["k"] == "call":
+                c = Callee(tm)
+                if norm(c.target or "") == "std::mem::drop":
+                    for a in c.type_args():
+                        g.setdefault(n, set()).update(drop_impls_of(a["ty"]))
+    seeds = set()
+    for n, b in prog.bodies.items():
+        if n == "ebr_impl::deferred::Deferred::call":
+            seeds.add(n)
+        for (_, t_, c) in b.calls():
+            nt = norm(c.target or "")
+            if nt in ("std::ops::FnOnce::call_once", "std::ops::FnMut::call_mut", "std::ops::Fn::call") and b.kind != "closure":
+                # a call through a value of generic type F in a non-closure function: the caller's closure
+                full = c.full or ""
+                if re.search(r"<F as |<P as |<G as ", full):
+                    seeds.add(n)
+    rev = {}
+    for a, outs in g.items():
+        for o in outs:
+            rev.setdefault(o, set()).add(a)
+    reach = set(seeds)
+    work = list(seeds)
+    while work:
+        v = work.pop()
+        for a in rev.get(v, ()):
+            if a not in reach:
+                reach.add(a)
+                work.append(a)
+    # dropping a Bag / SealedBag / Global / Collector runs deferred functions
+    prog._user_code_fns = reach
+    return reach
+
+
+def rule_cell_rmw(ctx):
+    """The per-thread counters of a participant are plain Cells updated by read ... write pairs.  A pair that spans a
+    call which can run user code (a collection runs destructors; destructors pin, unpin, clone handles, flush) writes back
+    a stale value (F11 was `guard_count` in unpin)."""
+    r = RuleResult("EBR-CELL-RMW", ["C16", "C20"],
+                   "no read-modify-write of a Local counter (guard_count, handle_count, pin_count, advance_count, "
+                   "manual_count, ..) spans a call that can run user code")
+    prog = ctx.prog
+    user = _runs_user_code(prog)
+    L = P + "Local::"
+    n = 0
+    for name in sorted(nm for nm in prog.bodies if nm.startswith(L) and prog.bodies[nm].kind != "closure"):
+        b = prog.body(name)
+        if not any(norm(c.target or "") == "std::cell::Cell::set" for (_, _, c) in b.calls()):
+            continue
+        r.functions.add(name)
+        seen = set()
+        for p in Exec(prog, unroll=2).paths(b):
+            r.paths += 1
+            for i, e in enumerate(p.events):
+                if e.kind != "call" or e.ntarget != "std::cell::Cell::set" or e.frame:
+                    continue
+                cell = outer_field(e.args[0])
+                if not cell or not cell.startswith("Local."):
+                    continue
+                gets = [x for x in subterms(e.args[1]) if x[0] == "call" and norm(x[1]) == "std::cell::Cell::get"
+                        and outer_field(x[2][0]) == cell]
+                if not gets:
+                    continue
+                gi = [j for j, q in enumerate(p.events[:i]) if q.kind == "call" and q.result == gets[0]]
+                if not gi:
+                    continue
+                between = [q for q in p.events[gi[-1] + 1:i] if q.kind == "call" and (q.target in user) and not q.frame]
+                key = (cell, e.bb, tuple(sorted({q.target for q in between})))
+                if key in seen:
+                    continue
+                seen.add(key)
+                n += 1
+                ok = not between
+                r.instance("%s: %s read and written back with no user code in between" % (name.split("::")[-1], cell), ok)
+                if not ok:
+                    r.violate(name, "stale:" + cell, "writes back a value derived from a read of %s made before a call of %s, "
+                              "which can run user code (destructors pin, unpin, take handles, flush): the update of whatever "
+                              "that code did to the counter is lost" % (cell, sorted({q.target.split("::")[-1] for q in between})),
+                              e.loc())
+    r.require(n, 5, "read-modify-write pairs on Local counters")
+    return r
+
+
+# ------------------------------------------------------------------------------------------
 def rule_flush_schedules(ctx):
     """Deferred functions run only from the collection loop of unpin, and that loop runs only when `must_collect` is
     set.  So that garbage in the global queue (this thread's earlier bags, other threads', an exited thread's) is
